@@ -8,6 +8,7 @@ import (
 	"path/filepath"
 	"strconv"
 	"strings"
+	"sync"
 
 	"golang.org/x/tools/go/packages"
 	"golang.org/x/tools/go/ssa"
@@ -27,6 +28,9 @@ type World struct {
 	importAlias map[string]map[string]string // pkg path -> alias -> import path
 	loadSecs    float64
 	preds       map[string]*Pred
+	pmMu        sync.Mutex
+	paramMods   map[string][]paramMod
+	compSorts   map[string]string
 }
 
 const modulePath = "metacontroller"
@@ -280,4 +284,30 @@ func (w *World) checkGlobalNonNil() error {
 		}
 	}
 	return nil
+}
+
+func (w *World) getParamMods(key string) ([]paramMod, bool) {
+	w.pmMu.Lock()
+	defer w.pmMu.Unlock()
+	pm, ok := w.paramMods[key]
+	return pm, ok
+}
+
+func (w *World) setParamMods(key string, pm []paramMod, sorts map[string]string) {
+	w.pmMu.Lock()
+	defer w.pmMu.Unlock()
+	if w.paramMods == nil {
+		w.paramMods = map[string][]paramMod{}
+		w.compSorts = map[string]string{}
+	}
+	w.paramMods[key] = pm
+	for _, p := range pm {
+		w.compSorts[p.comp] = sorts[p.comp]
+	}
+}
+
+func (w *World) compSortOf(comp string) string {
+	w.pmMu.Lock()
+	defer w.pmMu.Unlock()
+	return w.compSorts[comp]
 }
